@@ -61,6 +61,7 @@ package comet
 
 import (
 	"compress/gzip"
+	"errors"
 	"fmt"
 	"io"
 	"os"
@@ -287,14 +288,21 @@ func (s *PersistentHybridIndex) Remove(id uint32) error {
 	// Remove from active memtable
 	// Note: Documents in frozen memtables and segments cannot be removed
 	// They will be removed during compaction
-	memtables := s.memtableQueue.list()
-	if len(memtables) > 0 {
+	for {
+		memtables := s.memtableQueue.list()
+		if len(memtables) == 0 {
+			return nil
+		}
 		mutable := memtables[len(memtables)-1]
 		verifPoint("store.remove.picked", mutable)
-		return mutable.remove(id)
+		err := mutable.remove(id)
+		if errors.Is(err, errMemtableFrozen) {
+			// The memtable was rotated out between picking it and removing from it:
+			// look in the one that is writable now
+			continue
+		}
+		return err
 	}
-
-	return nil
 }
 
 // NewSearch creates a new search builder for this index.
